@@ -635,11 +635,30 @@ func (m *Metadata) ValidateRules(data map[string]any) ValidationResults {
 			} else {
 				foundDefault := false
 				for k, v := range samplers {
-					if _, ok := v.(map[string]any); !ok {
+					if sampler, ok := v.(map[string]any); !ok {
 						results = append(results, ValidationResult{
 							Message:  fmt.Sprintf("Sampler %s must be a map, but %v is %T", k, v, v),
 							Severity: Error,
 						})
+					} else if len(sampler) == 0 {
+						// an empty block would leave the sampler factory without a
+						// sampler type, which it can only answer by exiting
+						results = append(results, ValidationResult{
+							Message:  fmt.Sprintf("Sampler %s must specify a sampler", k),
+							Severity: Error,
+						})
+					} else if rbs, ok := sampler["RulesBasedSampler"].(map[string]any); ok {
+						// the same for the downstream sampler of a rule
+						rules, _ := rbs["Rules"].([]any)
+						for i, r := range rules {
+							rule, _ := r.(map[string]any)
+							if down, ok := rule["Sampler"].(map[string]any); ok && len(down) == 0 {
+								results = append(results, ValidationResult{
+									Message:  fmt.Sprintf("Sampler %s: rule %d has an empty Sampler block; it must specify a sampler", k, i),
+									Severity: Error,
+								})
+							}
+						}
 					}
 					if k == "__default__" {
 						foundDefault = true
